@@ -1246,7 +1246,10 @@ theorem route_forward_ok {idna : Str → Option Str} {extra : PoolKey.Ctx} {p : 
     (hsc : u.scheme = some http ∨ u.scheme = some https)
     (hf : isForwarding (some p) u.scheme = true)
     (h : routeWith idna (some p) extra u = .ok r) :
-    ∃ n pl, u.netloc = some n ∧ n ≠ [] ∧ r.pool = 0 ∧
+    ∃ n pl hst pv, u.netloc = some n ∧ n ≠ [] ∧ r.pool = 0 ∧
+      (poolTarget (some p) u).1 = some hst ∧
+      PoolKey.portOr (poolTarget (some p) u).2.1 (schemeOrO (poolTarget (some p) u).2.2) = .int pv ∧
+      newPool idna (schemeOrO (poolTarget (some p) u).2.2) hst pv.toNat = .ok pl ∧
       r.dialHost = dialName (fwdAddr p pl).1 ∧ r.dialPort = (fwdAddr p pl).2 ∧
       r.connect = none ∧ r.target = u.render ∧
       r.hostHeader = (if n != Gen.skipHeader then [n] else []) ∧
@@ -1259,7 +1262,7 @@ theorem route_forward_ok {idna : Str → Option Str} {extra : PoolKey.Ctx} {p : 
   split at h
   · simp at h
   · rename_i m' id key pl hpf
-    obtain ⟨hst', pv, -, -, -, -, hid⟩ := poolFor_init_ok (proxy := some p) (extra := extra) hpf
+    obtain ⟨hst', pv, hpt1, -, hpt2, hpt3, hid⟩ := poolFor_init_ok (proxy := some p) (extra := extra) hpf
     split at h
     · simp at h
     · rename_i dh dp tls con target hhv req kwh hsend
@@ -1271,7 +1274,374 @@ theorem route_forward_ok {idna : Str → Option Str} {extra : PoolKey.Ctx} {p : 
       rw [proxyHeaders_fresh hn hne] at hprep h
       obtain ⟨hv1, hv2⟩ := prepare_get_fwd (prepareNV_of_prepare hprep)
       subst h
-      exact ⟨n, pl, hn, hne, hid, hd1, hd2, rfl, rfl, hv1, hv2, rfl⟩
+      exact ⟨n, pl, hst', pv, hn, hne, hid, hpt1, hpt2, hpt3, hd1, hd2, rfl, rfl, hv1, hv2, rfl⟩
+
+
+
+theorem lookup_append_new {α β : Type} [BEq α] [LawfulBEq α] (k : α) (v : β) (l : List (α × β))
+    (h : List.lookup k l = none) : List.lookup k (l ++ [(k, v)]) = some v := by
+  induction l with
+  | nil => simp
+  | cons p t ih =>
+    obtain ⟨a, b⟩ := p
+    simp only [List.cons_append, List.lookup_cons] at h ⊢
+    cases hk : (k == a) with
+    | true => simp [hk] at h
+    | false => simp only [hk] at h ⊢; exact ih h
+
+/-- a pool that was just created is found again under the same request context -/
+theorem fromContext_new {m : PoolKey.Mgr} {rc : PoolKey.Ctx} {pk' : PoolKey.Mgr} {id : Nat} {kw : PoolKey.Ctx}
+    (h : PoolKey.fromContext m rc = (pk', .new id kw)) :
+    id = m.next ∧ pk'.defaults = m.defaults ∧ pk'.next = m.next + 1 ∧
+      PoolKey.fromContext pk' rc = (pk', .old id) := by
+  unfold PoolKey.fromContext at h
+  simp only at h
+  split at h
+  · simp at h
+  · rename_i s hsch
+    split at h
+    · simp at h
+    · rename_i hkf
+      split at h
+      · simp at h
+      · rename_i key hkey
+        split at h
+        · simp at h
+        · rename_i hlk
+          split at h
+          · split at h
+            · simp at h
+            · simp only [Prod.mk.injEq, PoolKey.Out.new.injEq] at h
+              obtain ⟨rfl, rfl, -⟩ := h
+              refine ⟨rfl, rfl, rfl, ?_⟩
+              unfold PoolKey.fromContext
+              simp only [hsch, hkf, hkey, lookup_append_new key m.next m.pools hlk]
+              simp
+          · simp at h
+  · simp at h
+
+theorem fromContext_old {m : PoolKey.Mgr} {rc : PoolKey.Ctx} {pk' : PoolKey.Mgr} {id : Nat}
+    (h : PoolKey.fromContext m rc = (pk', .old id)) : pk' = m := by
+  unfold PoolKey.fromContext at h
+  simp only at h
+  split at h
+  · simp at h
+  · split at h
+    · simp at h
+    · split at h
+      · simp at h
+      · split at h
+        · simp only [Prod.mk.injEq] at h; exact h.1.symm
+        · split at h
+          · split at h
+            · simp at h
+            · simp at h
+          · simp at h
+  · simp at h
+
+/-- the manager invariant `route` maintains: pool identities are positions in `pools` -/
+def Mgr.Sync (m : Mgr) : Prop := m.pk.next = m.pools.length
+
+theorem Mgr.sync_init (proxy : Option ProxyCfg) (extra : PoolKey.Ctx) : (Mgr.init proxy extra).Sync := rfl
+
+theorem poolForRC_repeat {idna : Str → Option Str} {m m1 : Mgr} {rcE : Except PoolKey.Exc PoolKey.Ctx}
+    {id : Nat} {key : PoolKey.Key} {pl : Pool} (hw : m.Sync)
+    (h : poolForRC idna m rcE = (m1, .ok (id, key, pl))) :
+    poolForRC idna m1 rcE = (m1, .ok (id, key, pl)) ∧ m1.proxy = m.proxy ∧
+      m1.pk.defaults = m.pk.defaults ∧ m1.Sync := by
+  unfold poolForRC at h
+  split at h
+  · simp at h
+  · rename_i rc
+    simp only at h
+    split at h
+    · simp at h
+    · rename_i pk' id' key' hf hn
+      have hpk := fromContext_old hf
+      split at h
+      · rename_i pl' hpl
+        simp only [Prod.mk.injEq, Except.ok.injEq] at h
+        obtain ⟨rfl, rfl, rfl, rfl⟩ := h
+        refine ⟨?_, rfl, rfl, hw⟩
+        unfold poolForRC
+        simp only
+        rw [hpk] at hf
+        rw [hf, hn]
+        simp only [hpl]
+      · simp at h
+    · rename_i pk' id' kw key' hf hn
+      obtain ⟨hid, hdef, hnext, hrep⟩ := fromContext_new hf
+      split at h
+      · rename_i s hst p hs hh hp
+        split at h
+        · simp at h
+        · rename_i pl' hnp
+          simp only [Prod.mk.injEq, Except.ok.injEq] at h
+          obtain ⟨rfl, rfl, rfl, rfl⟩ := h
+          refine ⟨?_, rfl, hdef, ?_⟩
+          · unfold poolForRC
+            simp only
+            rw [hrep, hn]
+            simp only
+            have : (m.pools ++ [pl'])[id']? = some pl' := by
+              rw [hid, hw]; simp
+            rw [this]
+          · unfold Mgr.Sync at hw ⊢
+            simp only [List.length_append, List.length_cons, List.length_nil]
+            rw [hnext, hw]
+      · simp at h
+    · simp at h
+
+
+/-- **Same pool again.**  Repeating a request that was served finds the pool it was served by: the
+observation is identical (pool id included) and the manager no longer changes. -/
+theorem route_repeat {idna : Str → Option Str} {m m1 : Mgr} {u : Url.Url} {c : List (Str × Str)} {r : Route}
+    (hw : m.Sync) (h : route idna m u c = (m1, .ok r)) :
+    route idna m1 u c = (m1, .ok r) ∧ m1.Sync := by
+  unfold route at h
+  split at h
+  · simp at h
+  · rename_i hchk
+    split at h
+    · simp at h
+    · rename_i m' id key pl hpf
+      split at h
+      · simp at h
+      · rename_i dh dp tls con target hhv req kwh hsend
+        simp only [Prod.mk.injEq, Except.ok.injEq] at h
+        obtain ⟨rfl, rfl⟩ := h
+        rw [poolFor_eq] at hpf
+        obtain ⟨hrep, hpx, hdef, hsync⟩ := poolForRC_repeat hw hpf
+        refine ⟨?_, hsync⟩
+        unfold route
+        rw [hpx, if_neg hchk, poolFor_eq, hpx, hdef, hrep]
+        simp only [hsend]
+
+
+theorem poolForRC_err {idna : Str → Option Str} {m m' : Mgr} {rcE : Except PoolKey.Exc PoolKey.Ctx} {e : Exc}
+    (h : poolForRC idna m rcE = (m', .error e)) : m' = m := by
+  unfold poolForRC at h
+  split at h
+  · simp only [Prod.mk.injEq] at h; exact h.1.symm
+  · simp only at h
+    split at h
+    · simp only [Prod.mk.injEq] at h; exact h.1.symm
+    · split at h
+      · simp at h
+      · simp only [Prod.mk.injEq] at h; exact h.1.symm
+    · split at h
+      · split at h
+        · simp only [Prod.mk.injEq] at h; exact h.1.symm
+        · simp at h
+      · simp only [Prod.mk.injEq] at h; exact h.1.symm
+    · simp only [Prod.mk.injEq] at h; exact h.1.symm
+
+/-- every manager state reachable from a fresh manager is `Sync` -/
+theorem route_sync (idna : Str → Option Str) (m : Mgr) (u : Url.Url) (c : List (Str × Str)) (hw : m.Sync) :
+    (route idna m u c).1.Sync := by
+  unfold route
+  split
+  · exact hw
+  · split
+    · rename_i m' e hpf
+      rw [poolFor_eq] at hpf
+      rw [poolForRC_err hpf]; exact hw
+    · rename_i m' id key pl hpf
+      rw [poolFor_eq] at hpf
+      have := (poolForRC_repeat hw hpf).2.2.2
+      split <;> exact this
+
+
+
+theorem joinWith_cons_cons (sep x : Str) (L : List Str) (hL : L ≠ []) :
+    joinWith sep (x :: L) = x ++ sep ++ joinWith sep L := by
+  cases L with
+  | nil => exact absurd rfl hL
+  | cons y t => rfl
+
+theorem join_split (c : Nat) (s : Str) : joinWith [c] (splitOn1 c s) = s := by
+  induction s with
+  | nil => rfl
+  | cons x t ih =>
+    unfold splitOn1
+    split
+    · rename_i hx
+      rw [joinWith_cons_cons _ _ _ (splitOn1_ne_nil c t), ih, hx]; rfl
+    · cases hs : splitOn1 c t with
+      | nil => exact absurd hs (splitOn1_ne_nil c t)
+      | cons p ps =>
+        simp only
+        rw [hs] at ih
+        cases ps with
+        | nil => simp only [joinWith] at ih ⊢; rw [ih]
+        | cons q r =>
+          simp only [joinWith] at ih ⊢
+          rw [← ih]; simp
+
+theorem mapM_idna_ascii (idna : Str → Option Str) (l : List Str) (h : ∀ x ∈ l, x.all (· < 128) = true) :
+    l.mapM (Url.idnaEncode idna) = .ok (l.map lower) := by
+  induction l with
+  | nil => rfl
+  | cons x r ih =>
+    rw [List.mapM_cons]
+    have hx : Url.idnaEncode idna x = .ok (lower x) := by
+      unfold Url.idnaEncode; rw [if_pos (h x (List.mem_cons_self ..))]
+    rw [hx, ih (fun y hy => h y (List.mem_cons_of_mem _ hy))]
+    rfl
+
+theorem mem_splitOn1_sub {c : Nat} {s p : Str} (hp : p ∈ splitOn1 c s) : ∀ x ∈ p, x ∈ s := by
+  induction s generalizing p with
+  | nil => simp [splitOn1] at hp; subst hp; simp
+  | cons a t ih =>
+    unfold splitOn1 at hp
+    split at hp
+    · rcases List.mem_cons.mp hp with rfl | hp
+      · simp
+      · intro x hx; exact List.mem_cons_of_mem _ (ih hp x hx)
+    · cases hs : splitOn1 c t with
+      | nil => exact absurd hs (splitOn1_ne_nil c t)
+      | cons q qs =>
+        rw [hs] at hp ih
+        simp only at hp
+        rcases List.mem_cons.mp hp with rfl | hp
+        · intro x hx
+          rcases List.mem_cons.mp hx with rfl | hx
+          · exact List.mem_cons_self ..
+          · exact List.mem_cons_of_mem _ (ih (List.mem_cons_self ..) x hx)
+        · intro x hx; exact List.mem_cons_of_mem _ (ih (List.mem_cons_of_mem _ hp) x hx)
+
+/-- the shapes of host `parse_url` returns for http/https URLs, for which the pool's second
+`_normalize_host` is the identity: a lower-case ASCII reg-name, a dotted quad, an IPv6 literal without
+zone in lower case -/
+def StableHost (h : Str) : Prop :=
+  (h.all (· < 128) = true ∧ lower h = h ∧ Url.ipv6AddrzMatch h = false) ∨
+  (Url.ipv4Match h = true ∧ Url.ipv6AddrzMatch h = false) ∨
+  (Url.ipv6AddrzMatch h = true ∧ 37 ∉ h ∧ lower h = h)
+
+theorem normalizeHost_stable (idna : Str → Option Str) (h s : Str) (hsch : s = http ∨ s = https)
+    (hst : StableHost h) : Url.normalizeHost idna (some h) (some s) = .ok (some h) := by
+  have hn : Gen.normalizableSchemes.contains (some s) = true := by
+    rcases hsch with rfl | rfl <;> decide
+  unfold Url.normalizeHost
+  simp only [hn, if_true]
+  split
+  · rfl
+  · rcases hst with ⟨ha, hl, h6⟩ | ⟨h4, h6⟩ | ⟨h6, h37, hl⟩
+    · simp only [h6, Bool.false_eq_true, if_false]
+      split
+      · rfl
+      · have hlab : ∀ x ∈ splitOn1 46 h, x.all (· < 128) = true := by
+          intro x hx
+          simp only [List.all_eq_true, decide_eq_true_eq] at ha ⊢
+          exact fun y hy => ha y (mem_splitOn1_sub hx y hy)
+        simp only [bind, Except.bind, mapM_idna_ascii idna _ hlab]
+        have : joinWith [46] ((splitOn1 46 h).map lower) = lower (joinWith [46] (splitOn1 46 h)) := by
+          rw [Url.lower_joinWith]; rfl
+        rw [this, join_split, hl]
+    · simp only [h6, Bool.false_eq_true, if_false, h4, if_true]
+    · have : h.dropWhile (· != 37) = [] := by
+        have : ∀ x ∈ h, (x != 37) = true := by
+          intro x hx
+          simp only [bne_iff_ne, ne_eq]
+          intro e; subst e; exact h37 hx
+        exact (Url.takeWhile_all h this).2
+      simp only [h6, if_true, this, List.isEmpty_nil, hl]
+
+
+
+theorem isAlphaC_lowerC (c : Nat) : isAlphaC (lowerC c) = isAlphaC c := by
+  rw [Bool.eq_iff_iff]
+  simp only [isAlphaC, isUpperC, isLowerC, lowerC, Bool.or_eq_true, Bool.and_eq_true, decide_eq_true_eq]
+  split <;> simp only [decide_eq_true_eq] <;> constructor <;> intro _ <;> omega
+
+theorem isDigitC_lowerC (c : Nat) : isDigitC (lowerC c) = isDigitC c := by
+  rw [Bool.eq_iff_iff]
+  simp only [isDigitC, lowerC, Bool.and_eq_true, decide_eq_true_eq]
+  split <;> simp only [decide_eq_true_eq] <;> constructor <;> intro _ <;> omega
+
+theorem lowerC_eq_iff (c k : Nat) (hk : k < 65 ∨ (90 < k ∧ k < 97) ∨ 122 < k) : lowerC c = k ↔ c = k := by
+  simp only [lowerC]
+  split <;> constructor <;> intro _ <;> omega
+
+theorem schemeChar1_lowerC (c : Nat) : Url.schemeChar1 (lowerC c) = Url.schemeChar1 c := by
+  rw [Bool.eq_iff_iff]
+  simp only [Url.schemeChar1, Bool.or_eq_true, beq_iff_eq, isAlphaC_lowerC, isDigitC_lowerC,
+    lowerC_eq_iff c 43 (by omega), lowerC_eq_iff c 45 (by omega)]
+
+theorem schemeChar1_schemeChar {c : Nat} (h : Url.schemeChar1 c = true) : Url.schemeChar c = true := by
+  simp [Url.schemeChar, h]
+
+/-- a well-formed scheme text: a letter followed by letters, digits, `+`, `-` (the class of `_SCHEME_RE`) -/
+def SchemeText (sc : Str) : Prop :=
+  ∃ c t, sc = c :: t ∧ isAlphaC c = true ∧ ∀ x ∈ t, Url.schemeChar1 x = true
+
+theorem schemeText_lower {sc : Str} (h : SchemeText sc) : SchemeText (lower sc) := by
+  obtain ⟨c, t, rfl, hc, ht⟩ := h
+  refine ⟨lowerC c, lower t, rfl, by rw [isAlphaC_lowerC]; exact hc, ?_⟩
+  intro x hx
+  simp only [lower, List.mem_map] at hx
+  obtain ⟨y, hy, rfl⟩ := hx
+  rw [schemeChar1_lowerC]; exact ht y hy
+
+theorem schemeText_of_lower {sc : Str} (h : SchemeText (lower sc)) : SchemeText sc := by
+  obtain ⟨c, t, he, hc, ht⟩ := h
+  cases sc with
+  | nil => simp [lower] at he
+  | cons a r =>
+    simp only [lower, List.map_cons, List.cons.injEq] at he
+    obtain ⟨rfl, rfl⟩ := he
+    refine ⟨a, r, rfl, by rw [← isAlphaC_lowerC]; exact hc, ?_⟩
+    intro x hx
+    rw [← schemeChar1_lowerC]
+    exact ht _ (List.mem_map_of_mem hx)
+
+theorem parseCore_scheme (idna : Str → Option Str) (sc rest : Str) (h : SchemeText sc) :
+    Url.parseCore idna (sc ++ 58 :: rest) = Url.parseCore idna (lower sc ++ 58 :: rest) := by
+  have key : ∀ sc, SchemeText sc →
+      Url.schemeRe (sc ++ 58 :: rest) = true ∧ Url.splitScheme (sc ++ 58 :: rest) = (some sc, rest) := by
+    intro sc h
+    obtain ⟨c, t, rfl, hc, ht⟩ := h
+    have h58 : Url.schemeChar1 58 = false := by decide
+    have h58' : Url.schemeChar 58 = false := by decide
+    have hne : c ≠ 47 := Url.alpha_ne47 hc
+    constructor
+    · simp only [List.cons_append, Url.schemeRe, hne, if_false, hc, if_true]
+      rw [(Url.takeWhile_append_stop t 58 rest ht h58).2]
+      rfl
+    · simp only [List.cons_append, Url.splitScheme, hc, if_true]
+      have ht' : ∀ x ∈ t, Url.schemeChar x = true := fun x hx => schemeChar1_schemeChar (ht x hx)
+      rw [(Url.takeWhile_append_stop t 58 rest ht' h58').2, (Url.takeWhile_append_stop t 58 rest ht' h58').1]
+      rfl
+  obtain ⟨h1, h2⟩ := key sc h
+  obtain ⟨h3, h4⟩ := key (lower sc) (schemeText_lower h)
+  unfold Url.parseCore
+  simp only [h1, h2, h3, h4, if_true, Url.normalizeUriOf, Option.map_some, lower_idem]
+
+/-- **The scheme's letter case does not influence the parse.** -/
+theorem parseUrlWith_scheme_case (idna : Str → Option Str) (sc₁ sc₂ rest : Str) (h1 : SchemeText sc₁)
+    (hl : lower sc₁ = lower sc₂) :
+    Url.parseUrlWith idna (sc₁ ++ 58 :: rest) = Url.parseUrlWith idna (sc₂ ++ 58 :: rest) := by
+  have h2 : SchemeText sc₂ := schemeText_of_lower (hl ▸ schemeText_lower h1)
+  unfold Url.parseUrlWith
+  have e1 : (sc₁ ++ 58 :: rest).isEmpty = false := by cases sc₁ <;> rfl
+  have e2 : (sc₂ ++ 58 :: rest).isEmpty = false := by cases sc₂ <;> rfl
+  rw [e1, e2, parseCore_scheme idna sc₁ rest h1, parseCore_scheme idna sc₂ rest h2, hl]
+
+
+
+theorem route_proxy (idna : Str → Option Str) (m : Mgr) (u : Url.Url) (c : List (Str × Str)) (hw : m.Sync) :
+    (route idna m u c).1.proxy = m.proxy := by
+  unfold route
+  split
+  · rfl
+  · split
+    · rename_i m' e hpf
+      rw [poolFor_eq] at hpf
+      rw [poolForRC_err hpf]
+    · rename_i m' id key pl hpf
+      rw [poolFor_eq] at hpf
+      have := (poolForRC_repeat hw hpf).2.1
+      split <;> exact this
 
 
 end U3.Route
